@@ -46,6 +46,11 @@ var methods = []minfo{
 	{Name: "webdav.Mkdir", Kind: "plain", Fam: "dav", Base: "/dav/dir/sub"},
 	{Name: "webdav.Copy", Kind: "plain", Fam: "dav", Base: "/dav/dir/a"},
 	{Name: "webdav.Move", Kind: "plain", Fam: "dav", Base: "/dav/dir/a"},
+	// the same calls with their option values set (options select code paths
+	// of their own in the client)
+	{Name: "webdav.Copy(NoOverwrite)", Kind: "plain", Fam: "dav", Base: "/dav/dir/a"},
+	{Name: "webdav.Copy(NoRecursive)", Kind: "plain", Fam: "dav", Base: "/dav/dir/a"},
+	{Name: "webdav.Move(NoOverwrite)", Kind: "plain", Fam: "dav", Base: "/dav/dir/a"},
 	{Name: "caldav.FindCalendarHomeSet", Kind: "ms1", Fam: "cal", Base: "/dav/principals/u/", Single: "cal-home"},
 	{Name: "caldav.FindCalendars", Kind: "msl", Fam: "cal", Base: "/dav/cals/", Kinds: []string{"cal", "dir"}},
 	{Name: "caldav.QueryCalendar", Kind: "msl", Fam: "cal", Base: "/dav/cals/c/", Kinds: []string{"calobj"}},
@@ -364,6 +369,12 @@ func invoke(m *minfo, hc webdav.HTTPClient, cs *Case) (raw interface{}, err erro
 			return nil, c.Copy(ctx, m.Base, "/dav/dir/b", nil)
 		case "webdav.Move":
 			return nil, c.Move(ctx, m.Base, "/dav/dir/b", nil)
+		case "webdav.Copy(NoOverwrite)":
+			return nil, c.Copy(ctx, m.Base, "/dav/dir/b", &webdav.CopyOptions{NoOverwrite: true})
+		case "webdav.Copy(NoRecursive)":
+			return nil, c.Copy(ctx, m.Base, "/dav/dir/b", &webdav.CopyOptions{NoRecursive: true})
+		case "webdav.Move(NoOverwrite)":
+			return nil, c.Move(ctx, m.Base, "/dav/dir/b", &webdav.MoveOptions{NoOverwrite: true})
 		}
 	case "cal":
 		c, e := caldav.NewClient(hc, endpoint)
